@@ -95,20 +95,20 @@ def check_wiring(ctx, w):
             names = [e.value for e in st.value.elts if isinstance(e, ast.Constant)]
     if not names:
         raise AnalysisError('W-NAME', f.construct, 'section name tuple not found')
-    # 2. renaming lambda evaluated on every name
-    lam = None
-    for st in ast.walk(f.node):
-        if isinstance(st, ast.Assign) and U(st.targets[0]) == 'section_names' and isinstance(st.value, ast.Call) and 'map' in U(st.value):
-            for x in ast.walk(st.value):
-                if isinstance(x, ast.Lambda):
-                    lam = x
-    if lam is None:
+    # 2. the renaming statement (section_names = tuple(<map / generator / comprehension over section_names>)) evaluated by the
+    #    analyser's own interpreter on the tuple of names
+    from sa.absint import Env, Unknown as _Unk
+    ren = [st for st in ast.walk(f.node) if isinstance(st, ast.Assign) and U(st.targets[0]) == 'section_names' and not isinstance(st.value, ast.Tuple) and
+           any(isinstance(x, ast.Name) and x.id == 'section_names' for x in ast.walk(st.value))]
+    if len(ren) != 1:
         raise AnalysisError('W-NAME', f.construct, '.zdebug renaming not found')
-    from sa.absint import Env
-    fv = FuncV(lam, Env(mod=w.model.relpath(EF)), w.model.relpath(EF))
+    env = Env(mod=w.model.relpath(EF))
+    env.vars['section_names'] = tuple(names)
+    res = w.interp.eval(ren[0].value, env)
+    if isinstance(res, _Unk) or not isinstance(res, (tuple, list)) or len(res) != len(names):
+        raise AnalysisError('W-NAME', f.construct, '.zdebug renaming not evaluable: %r' % (res,))
     renamed = []
-    for nm in names:
-        r = w.interp.call_func(fv, [nm], {}, None)
+    for nm, r in zip(names, res):
         want = ('.z' + nm[1:]) if nm.startswith('.debug_') else nm
         renamed.append(r)
         ctx.ob('W-NAME', f.construct, 'legacy-compressed name of %s' % nm, r == want, got=r, expected=want,
@@ -116,8 +116,8 @@ def check_wiring(ctx, w):
                sample='%s -> %s under .zdebug' % (nm, want))
     # 3. appended .eh_frame, unpack order, kwargs
     src = U(f.node)
-    ctx.ob('W-NAME', f.construct, '.eh_frame appended after the renaming', "section_names += ('.eh_frame',)" in src and
-           src.index("section_names += ('.eh_frame',)") > src.index('section_names = tuple(map('))
+    app = [st for st in ast.walk(f.node) if isinstance(st, ast.AugAssign) and U(st.target) == 'section_names' and U(st.value) == "('.eh_frame',)"]
+    ctx.ob('W-NAME', f.construct, '.eh_frame appended after the renaming', len(app) == 1 and app[0].lineno > ren[0].lineno)
     unpack = None
     for st in ast.walk(f.node):
         if isinstance(st, ast.Assign) and isinstance(st.targets[0], ast.Tuple) and U(st.value) == 'section_names':
